@@ -70,6 +70,9 @@ VOCAB = [
     "@if aaaaaaaaaaaaaaaaaaaaaaaaaaaaaaaaaaaaaaaa bbbbbbbbbbbbbbbbbbbbbbbbbbbbbbbbbbbbbbbb", "<<if aaaaaaaaaaaaaaaaaaaaaaaaaaaaaaaaaaaaaaaaaaaaaa >",
     "+ {aaaaaaaaaaaaaaaaaaaaaaaaaaaaaaaaaaaaaaaaaaaaaaaa [bbbbbbbbbbbbbbbbbbbbbbbbbbbbbbbbbb -> C", "@render:" + "a" * 40, "@render " + "f(" * 30,
     "@input " + "a=\"b " * 25, ":: A(" + "x, " * 30, "{" + "a ? " * 25 + "}", "-> " + "a." * 40 + "(", "~ x = " + "(" * 40, "^" + "a:b" * 30,
+    # calls of parameterised passages with too many / too few / doubly supplied arguments
+    ":: A(p)", ":: A(p, q=1)", ":: B(x=1)", "-> A(1, 2, 3)", "+ [a] -> A(1, 2, 3)", "-> A(1, p=2)", "+ [a] -> A(q=1)", "-> B(1, 2)", "* [a] -> B(1, x=2)",
+    "-> A()", "+ [a] -> A(1, 2, q=3, q=4)", "-> A(\"fine :)\")", "+ [a] -> A(\":(\")", "-> A(')')", "+ [a] -> B(x=\"(\")",
     # attribute named like the token's own field; comments around @metadata; old markers after @join
     "@input name=\"n\" type=\"password\"", "@input type=\"x\"", "@metadata # c", "@metadata  # about", "  # c", "  author: A # c", "# title: no",
     "@include", "@foo", "@", "@@", "import os", "from x import y", "from", "import", "# c", "", "   ", "\t", "#", "@endjoin", "@if x: // c", "@prefix a",
